@@ -2,6 +2,7 @@ package sym
 
 import (
 	"fmt"
+	"sync"
 	"go/types"
 
 	"golang.org/x/tools/go/ssa"
@@ -78,11 +79,20 @@ func (e *Engine) callInstr(st *State, th *Thread, fr *Frame, in *ssa.Call, cc *s
 	e.invoke(st, th, fv, args, in, false)
 }
 
+var fnKeyCache sync.Map
+
 func fnKey(fn *ssa.Function) string {
-	if o := fn.Origin(); o != nil {
-		return o.String()
+	if v, ok := fnKeyCache.Load(fn); ok {
+		return v.(string)
 	}
-	return fn.String()
+	var s string
+	if o := fn.Origin(); o != nil {
+		s = o.String()
+	} else {
+		s = fn.String()
+	}
+	fnKeyCache.Store(fn, s)
+	return s
 }
 
 // invoke calls fv with args. instr is the call instruction (nil for defer/go).
